@@ -1,72 +1,74 @@
 """Run every seeded change against the check(s) expected to catch it and record the outcome.
 
-usage: /venv/bin/python -m tools.seeded_matrix [tier] [id ...]
-For each /verif/seeded/<id>: apply patch.diff to /repo (must be clean), run ./check <prop> --tier <tier> for the
-property in the id and for every property listed in meta.json["also_try"], restore /repo, and write
-seeded/<id>/last_run.json {tier, commit, results: {prop: {exit, violations}}}.  Nothing is committed to /repo.
+usage: /venv/bin/python -m tools.seeded_matrix [tier] [-jN] [id ...]
+For each /verif/seeded/<id>: a scratch git worktree of /repo's HEAD (under /tmp/mt, removed afterwards) gets
+patch.diff; ./check <prop> --tier <tier> runs with VERIF_REPO pointing at it (evidence and replays redirected to the
+scratch area) for the property in the id and for every property listed in meta.json["also_try"]; the outcome goes to
+seeded/<id>/last_run.json {tier, commit, results: {prop: {exit, violations}}}.  /repo itself is never touched, so
+several changes are tried at a time (-jN, default 4).
 """
 from __future__ import annotations
 
 import json
+import os
+import shutil
 import subprocess
 import sys
+from concurrent.futures import ThreadPoolExecutor
 from pathlib import Path
 
 SEEDED = Path("/verif/seeded")
+SCRATCH = Path("/tmp/mt")
 
 
-def sh(cmd: list[str], cwd: str = "/repo", timeout: int = 3600) -> subprocess.CompletedProcess:
-    return subprocess.run(cmd, cwd=cwd, capture_output=True, text=True, timeout=timeout, check=False)
+def sh(cmd: list[str], cwd: str = "/repo", timeout: int = 7200, env=None) -> subprocess.CompletedProcess:
+    return subprocess.run(cmd, cwd=cwd, capture_output=True, text=True, timeout=timeout, check=False, env=env)
 
 
-def restore() -> None:
-    sh(["git", "checkout", "-q", "--", "."])
-    sh(["git", "reset", "-q", "--hard", "HEAD"])
-    sh(["git", "clean", "-fdq", "src"])
-
-
-def apply(patch: Path) -> bool:
-    if sh(["git", "apply", "--3way", str(patch)]).returncode == 0:
-        sh(["git", "reset", "-q"])
-        return True
-    restore()
-    if sh(["git", "apply", "--recount", "-C1", str(patch)]).returncode == 0:
-        return True
-    restore()
-    return False
+def one(mid: str, tier: str, commit: str) -> tuple[str, dict]:
+    d = SEEDED / mid
+    meta = json.loads((d / "meta.json").read_text())
+    props = [mid.split("-")[0]] + list(meta.get("also_try", []))
+    wt = SCRATCH / f"mx-{mid}-{os.getpid()}"
+    if sh(["git", "worktree", "add", "-q", "--detach", str(wt), "HEAD"]).returncode != 0:
+        return mid, {"tier": tier, "commit": commit, "applies": False, "results": {}, "error": "worktree"}
+    try:
+        ok = sh(["git", "apply", str(d / "patch.diff")], cwd=str(wt)).returncode == 0 or \
+            sh(["git", "apply", "--recount", "-C1", str(d / "patch.diff")], cwd=str(wt)).returncode == 0
+        if not ok:
+            return mid, {"tier": tier, "commit": commit, "applies": False, "results": {}}
+        results = {}
+        for p in props:
+            ev, rp = Path(str(wt) + ".ev"), Path(str(wt) + ".rp")
+            ev.mkdir(exist_ok=True)
+            rp.mkdir(exist_ok=True)
+            env = dict(os.environ, VERIF_REPO=str(wt), VERIF_EVIDENCE_DIR=str(ev), VERIF_REPLAYS_DIR=str(rp))
+            r = sh(["./check", p, "--tier", tier], cwd="/verif", env=env)
+            nviol = sum(1 for l in r.stdout.splitlines() if l.startswith("VIOLATION"))
+            results[p] = {"exit": r.returncode, "violations": nviol}
+            if r.returncode == 1:
+                break
+        caught = [p for p, x in results.items() if x["exit"] == 1]
+        return mid, {"tier": tier, "commit": commit, "applies": True, "results": results, "caught_by": caught}
+    finally:
+        sh(["git", "worktree", "remove", "--force", str(wt)])
+        shutil.rmtree(str(wt) + ".ev", ignore_errors=True)
+        shutil.rmtree(str(wt) + ".rp", ignore_errors=True)
 
 
 def main() -> None:
     args = sys.argv[1:]
-    tier = args[0] if args and args[0] in ("quick", "thorough") else "quick"
-    ids = [a for a in args if a not in ("quick", "thorough")] or sorted(p.name for p in SEEDED.iterdir() if p.is_dir())
-    if sh(["git", "status", "--porcelain"]).stdout.strip():
-        print("/repo not clean")
-        sys.exit(2)
+    tier = next((a for a in args if a in ("quick", "thorough")), "quick")
+    nj = next((int(a[2:]) for a in args if a.startswith("-j")), 4)
+    ids = [a for a in args if a not in ("quick", "thorough") and not a.startswith("-j")] \
+        or sorted(p.name for p in SEEDED.iterdir() if p.is_dir())
+    SCRATCH.mkdir(parents=True, exist_ok=True)
     commit = sh(["git", "rev-parse", "--short", "HEAD"]).stdout.strip()
-    for mid in ids:
-        d = SEEDED / mid
-        meta = json.loads((d / "meta.json").read_text())
-        props = [mid.split("-")[0]] + list(meta.get("also_try", []))
-        if not apply(d / "patch.diff"):
-            out = {"tier": tier, "commit": commit, "applies": False, "results": {}}
-            (d / "last_run.json").write_text(json.dumps(out, indent=1) + "\n")
-            print(mid, "APPLY-FAILED")
-            continue
-        results = {}
-        try:
-            for p in props:
-                r = sh(["./check", p, "--tier", tier], cwd="/verif")
-                nviol = sum(1 for l in r.stdout.splitlines() if l.startswith("VIOLATION"))
-                results[p] = {"exit": r.returncode, "violations": nviol}
-                if r.returncode == 1:
-                    break
-        finally:
-            restore()
-        caught = [p for p, x in results.items() if x["exit"] == 1]
-        out = {"tier": tier, "commit": commit, "applies": True, "results": results, "caught_by": caught}
-        (d / "last_run.json").write_text(json.dumps(out, indent=1) + "\n")
-        print(mid, results, flush=True)
+    with ThreadPoolExecutor(max_workers=nj) as ex:
+        for mid, out in ex.map(lambda m: one(m, tier, commit), ids):
+            (SEEDED / mid / "last_run.json").write_text(json.dumps(out, indent=1) + "\n")
+            print(mid, out.get("results") if out.get("applies") else "APPLY-FAILED", flush=True)
+    sh(["git", "worktree", "prune"])
 
 
 if __name__ == "__main__":
